@@ -1,15 +1,17 @@
-(* C08, "new definitions get fresh, non-colliding names": the definition added by a completed round of
-   _make_instance_unique is named <old>_sdn_unique_<k>, k the module counter, and that name differs from
-   the name of every definition of the library at the moment it is added: add_definition asks the
-   namespace manager, whose table of the library is exact, and a clash makes the call - and with it the
-   whole uniquify - end with ValueError. Hence a completed uniquify never produces two definitions with
-   one name in a library. *)
+(* C08, "new definitions get fresh, non-colliding names": _make_instance_unique picks, before it renames
+   the copy, the first counter value k >= the module counter for which no definition of the library carries
+   the name <old>_sdn_unique_<k> nor (without case) the identifier <old identifier>_sdn_unique_<k>
+   (Xform.fresh_ctr; Proofs/UniqFresh.v: the search never runs out). Hence: the definition added by a
+   completed round is named <old>_sdn_unique_<k>, that name differs from the name of every definition of
+   the library; the naming test of add_definition (NamespaceManager.add) never refuses the renamed copy of
+   a named cell - in any round of any run, completed or not; the exact name and identifier tables of the
+   libraries are preserved; a completed uniquify never leaves two definitions with one name in a library. *)
 From Coq Require Import List Arith Bool Lia.
 From RecordUpdate Require Import RecordSet.
 From SV Require Import Base.Base IR.State IR.NS IR.Ops Xform.Clone Xform.Strs Xform.Xform Proofs.AssocX Proofs.Frame Proofs.Inv1a Proofs.Inv2a
   Proofs.InvP Proofs.InvW Proofs.Fresh Proofs.Refused Proofs.RefusedFull Proofs.NsSlot Proofs.NsInv Proofs.CloneInv Proofs.RefK Proofs.CloneRef
   Proofs.CloneT Proofs.CloneNs Proofs.FieldT Proofs.CloneFaith Proofs.CloneFull Proofs.CloneNetInv Proofs.CloneDefStruct Proofs.CloneData
-  Proofs.XHistory Proofs.UniqFull Proofs.UniqElab.
+  Proofs.XHistory Proofs.UniqFull Proofs.UniqElab Proofs.UniqFresh.
 Import ListNotations RecordSetNotations.
 
 (* ---- Definition.clone never touches the library/definition relation ---- *)
@@ -133,29 +135,49 @@ Proof.
   unfold sF. rewrite (reapply_tab_other sB d' y Hnot). change (nstab sB y) with (nstab s2 y). rewrite Rt. apply HG. lia.
 Qed.
 
-(* ---- the invariants of the walk: the name tables of the libraries are exact; libraries are old ---- *)
+(* ---- the invariants of the walk: the name and identifier tables of the libraries are exact; libraries are old ---- *)
 Definition LT (n0 : id) (s : state) : Prop :=
-  forall l t, l < n0 -> nstab s l = Some t -> SlotOK (ns_names t KDefinition) (fun c => In c (kids s RDefs l)) (name_key s).
+  forall l t, l < n0 -> nstab s l = Some t ->
+    SlotOK (ns_names t KDefinition) (fun c => In c (kids s RDefs l)) (name_key s) /\
+    (ns_pol t = PolEdif -> SlotOK (ns_idents t KDefinition) (fun c => In c (kids s RDefs l)) (ident_key s)).
 Definition PL (n0 : id) (s : state) : Prop := forall y l, par s RDefs y = Some l -> l < n0.
 
 Lemma lt_of_nsinv n0 s : NsInv s -> LT n0 s.
-Proof. intros H l t _ Hl. apply (tk_names _ _ _ _ (H l t Hl) RDefs eq_refl). Qed.
+Proof.
+  intros H l t _ Hl. split; [apply (tk_names _ _ _ _ (H l t Hl) RDefs eq_refl)|].
+  intro Hp. apply (tk_idents _ _ _ _ (H l t Hl) Hp RDefs eq_refl).
+Qed.
+
+Definition keys_same (s s' : state) (c : id) : Prop := name_key s' c = name_key s c /\ ident_key s' c = ident_key s c.
+Lemma keys_same_data s s' c : data s' c = data s c -> keys_same s s' c.
+Proof. intro H. unfold keys_same, name_key, ident_key, get_str. rewrite H. split; reflexivity. Qed.
 
 Lemma lt_ext n0 s s' : LT n0 s -> (forall l, l < n0 -> nstab s' l = nstab s l) -> (forall l, l < n0 -> kids s' RDefs l = kids s RDefs l) ->
-  (forall l c, l < n0 -> In c (kids s RDefs l) -> name_key s' c = name_key s c) -> LT n0 s'.
+  (forall l c, l < n0 -> In c (kids s RDefs l) -> keys_same s s' c) -> LT n0 s'.
 Proof.
-  intros H Ht Hk Hn l t Hl Hlt. rewrite (Ht l Hl) in Hlt. apply (slot_ext _ _ _ _ _ (H l t Hl Hlt)).
-  - intro c. rewrite (Hk l Hl). tauto.
-  - intros c Hc. apply (Hn l c Hl Hc).
+  intros H Ht Hk Hn l t Hl Hlt. rewrite (Ht l Hl) in Hlt. destruct (H l t Hl Hlt) as [A B]. split.
+  - apply (slot_ext _ _ _ _ _ A); [intro c; rewrite (Hk l Hl); tauto|intros c Hc; apply (Hn l c Hl Hc)].
+  - intro Hp. apply (slot_ext _ _ _ _ _ (B Hp)); [intro c; rewrite (Hk l Hl); tauto|intros c Hc; apply (Hn l c Hl Hc)].
 Qed.
 
 (* distinct names within a library that has a table *)
 Lemma lt_unique n0 s l t c1 c2 v : LT n0 s -> l < n0 -> nstab s l = Some t ->
   In c1 (kids s RDefs l) -> In c2 (kids s RDefs l) -> get_str s c1 str_NAME = Some v -> get_str s c2 str_NAME = Some v -> c1 = c2.
 Proof.
-  intros H Hl Ht H1 H2 E1 E2. pose proof (H l t Hl Ht) as S.
+  intros H Hl Ht H1 H2 E1 E2. pose proof (proj1 (H l t Hl Ht)) as S.
   assert (A : sassoc v (ns_names t KDefinition) = Some c1) by (apply S; split; assumption).
   assert (B : sassoc v (ns_names t KDefinition) = Some c2) by (apply S; split; assumption). congruence.
+Qed.
+
+(* ... and, under the EDIF policy, identifiers that differ beyond case *)
+Lemma lt_unique_ident n0 s l t c1 c2 v1 v2 : LT n0 s -> l < n0 -> nstab s l = Some t -> ns_pol t = PolEdif ->
+  In c1 (kids s RDefs l) -> In c2 (kids s RDefs l) ->
+  get_str s c1 str_IDENT = Some v1 -> get_str s c2 str_IDENT = Some v2 -> lower v1 = lower v2 -> c1 = c2.
+Proof.
+  intros H Hl Ht Hp H1 H2 E1 E2 E. pose proof (proj2 (H l t Hl Ht) Hp) as S.
+  assert (A : sassoc (lower v1) (ns_idents t KDefinition) = Some c1) by (apply S; split; [assumption|unfold ident_key; rewrite E1; reflexivity]).
+  assert (B : sassoc (lower v1) (ns_idents t KDefinition) = Some c2) by (apply S; split; [assumption|unfold ident_key; rewrite E2, E; reflexivity]).
+  congruence.
 Qed.
 
 (* ---- a name assigned to a parentless element ---- *)
@@ -169,20 +191,50 @@ Proof.
 Qed.
 
 (* ---- NamespaceManager.add for a definition entering a library ---- *)
-Lemma ns_add_def_spec s lib c s1 :
-  ~ In lib (subtree s c) -> ns_add s lib c KDefinition = (s1, None) ->
-  ksame s s1 /\ (forall l, l <> lib -> ~ In l (subtree s c) -> nstab s1 l = nstab s l) /\
+(* the test of NamespaceManager.add: "Adding this element would result in a naming conflict" *)
+Definition ns_add_conflict (s : state) (parent child : id) (ck : kind) : bool :=
+  match nstab s parent with
+  | Some t =>
+      (match get_str s child str_IDENT with Some v => negb (ns_no_conflict t ck child str_IDENT v) | None => false end) ||
+      (match get_str s child str_NAME with Some v => negb (ns_no_conflict t ck child str_NAME v) | None => false end)
+  | None => false
+  end.
+
+Lemma ns_add_refused s parent child ck : ns_add_conflict s parent child ck = true -> ns_add s parent child ck = raise s XValue.
+Proof. unfold ns_add, ns_add_conflict. intros ->. reflexivity. Qed.
+
+(* it is the only naming test of add_definition: a definition without a library offered to a library is
+   refused for its name or identifier exactly when ns_add_conflict says so *)
+Lemma op_add_refused_by_name s lib c pos :
+  kind_of s lib = Some KLibrary -> kind_of s c = Some KDefinition -> par s RDefs c = None ->
+  ns_add_conflict s lib c KDefinition = true -> op_add s RDefs lib c pos = (s, Some XValue).
+Proof.
+  intros Hl Hc Hp Hx. unfold op_add, guard, is_kind, add_guard1. rewrite Hl, Hc, Hp. cbn [rel_parent rel_child kind_eqb andb ns_rel].
+  rewrite (ns_add_refused s lib c KDefinition Hx). reflexivity.
+Qed.
+
+Definition add_tab_spec (s : state) (lib c : id) (s1 : state) : Prop :=
   match nstab s lib with
-  | Some t => exists t', nstab s1 lib = Some t' /\
+  | Some t => exists t', nstab s1 lib = Some t' /\ ns_pol t' = ns_pol t /\
       match name_key s c with
       | Some v => tab_conflict (ns_names t KDefinition) v c = false /\
                   ns_names t' KDefinition = tab_replace (ns_names t KDefinition) (Some v) v c
       | None => ns_names t' KDefinition = ns_names t KDefinition
-      end
+      end /\
+      (ns_pol t = PolEdif ->
+       match get_str s c str_IDENT with
+       | Some v => tab_conflict (ns_idents t KDefinition) (lower v) c = false /\
+                   ns_idents t' KDefinition = tab_replace (ns_idents t KDefinition) (Some (lower v)) (lower v) c
+       | None => ns_idents t' KDefinition = ns_idents t KDefinition
+       end)
   | None => nstab s1 lib = None
   end.
+
+Lemma ns_add_def_spec s lib c s1 :
+  ~ In lib (subtree s c) -> ns_add s lib c KDefinition = (s1, None) ->
+  ksame s s1 /\ (forall l, l <> lib -> ~ In l (subtree s c) -> nstab s1 l = nstab s l) /\ add_tab_spec s lib c s1.
 Proof.
-  intros Hlib. unfold ns_add. set (idv := get_str s c str_IDENT). set (nmv := get_str s c str_NAME).
+  intros Hlib. unfold add_tab_spec, ns_add. set (idv := get_str s c str_IDENT). set (nmv := get_str s c str_NAME).
   destruct (match nstab s lib with Some t => _ | None => false end) eqn:Hconf; [cbn; discriminate|].
   set (mid := match sassoc str_NS (data s lib) with
               | Some pv => if match sassoc str_NS (data s c) with Some cv => val_eqb cv pv | None => false end then ret s else dict_set s c str_NS pv
@@ -201,13 +253,19 @@ Proof.
     + intros l Hl Hn. change (nstab (set_nstab sm lib (Some T2)) l) with (upd (nstab sm) lib (Some T2) l).
       rewrite upd_other by exact Hl. apply Ht. exact Hn.
     + exists T2. split; [change (nstab (set_nstab sm lib (Some T2)) lib) with (upd (nstab sm) lib (Some T2) lib); apply upd_same|].
-      unfold name_key. fold nmv. unfold T2.
-      apply orb_false_iff in Hconf as [_ Hcn].
-      destruct nmv as [v|].
-      * split.
-        -- apply negb_false_iff in Hcn. unfold ns_no_conflict in Hcn. rewrite str_eqb_refl in Hcn. apply negb_true_iff in Hcn. exact Hcn.
-        -- rewrite ns_update_names_name, kind_eqb_refl. destruct idv; [rewrite ns_update_names_ident|]; reflexivity.
-      * destruct idv; [rewrite ns_update_names_ident|]; reflexivity.
+      apply orb_false_iff in Hconf as [Hci Hcn].
+      assert (Hidn : forall t1, ns_idents (match nmv with Some v0 => ns_update t1 KDefinition c str_NAME (Some v0) v0 | None => t1 end) = ns_idents t1)
+        by (intro t1; destruct nmv; [apply ns_update_idents_name|reflexivity]).
+      split; [unfold T2; destruct nmv, idv; rewrite ?ns_update_pol; reflexivity|]. split.
+      * unfold name_key. fold nmv. unfold T2. destruct nmv as [v|].
+        -- split.
+           ++ apply negb_false_iff in Hcn. unfold ns_no_conflict in Hcn. rewrite str_eqb_refl in Hcn. apply negb_true_iff in Hcn. exact Hcn.
+           ++ rewrite ns_update_names_name, kind_eqb_refl. destruct idv; [rewrite ns_update_names_ident|]; reflexivity.
+        -- destruct idv; [rewrite ns_update_names_ident|]; reflexivity.
+      * intro Hp. unfold T2. rewrite Hidn. destruct idv as [v|]; [|reflexivity]. split.
+        -- apply negb_false_iff in Hci. unfold ns_no_conflict in Hci. rewrite ident_ne_name, Hp, str_eqb_refl in Hci.
+           apply negb_true_iff in Hci. exact Hci.
+        -- rewrite ns_update_idents_ident, Hp, kind_eqb_refl. reflexivity.
   - intro H; injection H as <-.
     split; [exact K|]. split; [intros l _ Hn; apply Ht; exact Hn|]. rewrite (Ht lib Hlib). exact Htl.
 Qed.
@@ -217,17 +275,8 @@ Lemma add_def_spec s lib c pos s' :
   kind_of s lib = Some KLibrary /\ kind_of s c = Some KDefinition /\ par s RDefs c = None /\
   kids s' RDefs lib = py_insert pos c (kids s RDefs lib) /\ (forall l, l <> lib -> kids s' RDefs l = kids s RDefs l) /\
   par s' RDefs c = Some lib /\ (forall y, y <> c -> par s' RDefs y = par s RDefs y) /\
-  (forall y, name_key s' y = name_key s y) /\
-  (forall l, l <> lib -> ~ In l (subtree s c) -> nstab s' l = nstab s l) /\
-  match nstab s lib with
-  | Some t => exists t', nstab s' lib = Some t' /\
-      match name_key s c with
-      | Some v => tab_conflict (ns_names t KDefinition) v c = false /\
-                  ns_names t' KDefinition = tab_replace (ns_names t KDefinition) (Some v) v c
-      | None => ns_names t' KDefinition = ns_names t KDefinition
-      end
-  | None => nstab s' lib = None
-  end.
+  (forall y, keys_same s s' y) /\
+  (forall l, l <> lib -> ~ In l (subtree s c) -> nstab s' l = nstab s l) /\ add_tab_spec s lib c s'.
 Proof.
   intros HT. unfold op_add, guard.
   destruct (is_kind s lib (rel_parent RDefs) && is_kind s c (rel_child RDefs)) eqn:Hk; [|discriminate].
@@ -244,55 +293,227 @@ Proof.
   split; [intros l Hne; cbn; rewrite upd_other by exact Hne; rewrite (ks_kids _ _ K); reflexivity|].
   split; [cbn; rewrite upd_same; reflexivity|].
   split; [intros y Hne; cbn; rewrite upd_other by exact Hne; rewrite (ks_par _ _ K); reflexivity|].
-  split; [intro y; apply (ks_name _ _ K)|]. split; [exact Ht|exact Hl].
+  split; [intro y; split; [apply (ks_name _ _ K)|apply (ks_ident _ _ K)]|]. split; [exact Ht|exact Hl].
 Qed.
 
 (* ---- the renaming block of _make_instance_unique ---- *)
-Definition named_block (x1 : xstate) (d d' : id) : XR :=
+Definition named_block (x1 : xstate) (lib d d' : id) : XR :=
   match get_str (st x1) d str_NAME with
   | Some nm =>
-      let suffix := str_uniq ++ dec (uniq_ctr x1) in
-      let x2 := mkX (st x1) (S (uniq_ctr x1)) (flat_ctr x1) in
-      liftR x2 (dict_set (st x2) d' str_NAME (VStr (nm ++ suffix))) (fun x3 =>
-        match get_str (st x3) d' str_IDENT with
-        | Some idv => liftR x3 (dict_set (st x3) d' str_IDENT (VStr (idv ++ suffix))) (fun x4 => (x4, None))
-        | None => (x3, None)
-        end)
+      let defs := kids (st x1) RDefs lib in
+      match fresh_ctr (fresh_fuel defs) (st x1) defs nm (get_str (st x1) d str_IDENT) (uniq_ctr x1) with
+      | None => (x1, Some XOutOfFuel)
+      | Some k =>
+          let suffix := str_uniq ++ dec k in
+          let x2 := mkX (st x1) (S k) (flat_ctr x1) in
+          liftR x2 (dict_set (st x2) d' str_NAME (VStr (nm ++ suffix))) (fun x3 =>
+            match get_str (st x3) d' str_IDENT with
+            | Some idv => liftR x3 (dict_set (st x3) d' str_IDENT (VStr (idv ++ suffix))) (fun x4 => (x4, None))
+            | None => (x3, None)
+            end)
+      end
   | None => (x1, None)
   end.
 
-Lemma named_block_spec x1 d d' x5 : ns_parent (st x1) d' = None -> named_block x1 d d' = (x5, None) ->
+(* _make_instance_unique is: clone, the renaming block, add_definition, the reference change *)
+Lemma make_instance_unique_unfold x inst :
+  make_instance_unique x inst =
+  match iref (st x) inst with
+  | None => (x, Some XAttr)
+  | Some d =>
+      match par (st x) RDefs d with
+      | None => (x, Some XAttr)
+      | Some lib =>
+          let '(r, d') := clone_definition (st x) d in
+          liftR x r (fun x1 =>
+            match named_block x1 lib d d' with
+            | (x5, Some e) => (x5, Some e)
+            | (x5, None) =>
+                liftR x5 (op_add (st x5) RDefs lib d' (Some (S (index_of d (kids (st x) RDefs lib))))) (fun x6 =>
+                liftR x6 (op_set_reference (st x6) inst (Some d')) (fun x7 => (x7, None)))
+            end)
+      end
+  end.
+Proof. reflexivity. Qed.
+
+(* the search never runs out of fuel: the renaming block does not end with XOutOfFuel *)
+Lemma named_block_fuel x1 lib d d' : snd (named_block x1 lib d d') <> Some XOutOfFuel.
+Proof.
+  unfold named_block. destruct (get_str (st x1) d str_NAME) as [nm|]; [|cbn [snd]; intro HH; discriminate HH]. cbv zeta.
+  destruct (fresh_ctr _ _ _ _ _ _) as [k|] eqn:Ef; [|exfalso; apply (fresh_ctr_total _ _ _ _ _ Ef)].
+  unfold liftR at 1. destruct (dict_set _ _ _ _) as [s2 [e|]]; [cbn [snd]; intro HH; discriminate HH|].
+  clear Ef. destruct (get_str _ d' str_IDENT) as [idv|]; [|cbn [snd]; intro HH; discriminate HH].
+  unfold liftR. destruct (dict_set _ _ _ _) as [s3 [e|]]; cbn [snd]; intro HH; discriminate HH.
+Qed.
+
+Lemma named_block_spec x1 lib d d' x5 : ns_parent (st x1) d' = None -> named_block x1 lib d d' = (x5, None) ->
   struct_eq (st x1) (st x5) /\ nstab (st x5) = nstab (st x1) /\ (forall y, y <> d' -> data (st x5) y = data (st x1) y) /\
   match get_str (st x1) d str_NAME with
-  | Some nm => get_str (st x5) d' str_NAME = Some (nm ++ str_uniq ++ dec (uniq_ctr x1)) /\ uniq_ctr x5 = S (uniq_ctr x1)
+  | Some nm => exists k,
+      fresh_ctr (fresh_fuel (kids (st x1) RDefs lib)) (st x1) (kids (st x1) RDefs lib) nm (get_str (st x1) d str_IDENT) (uniq_ctr x1) = Some k /\
+      get_str (st x5) d' str_NAME = Some (nm ++ str_uniq ++ dec k) /\ uniq_ctr x5 = S k /\
+      get_str (st x5) d' str_IDENT = option_map (fun i => i ++ str_uniq ++ dec k) (get_str (st x1) d' str_IDENT)
   | None => st x5 = st x1 /\ uniq_ctr x5 = uniq_ctr x1
   end.
 Proof.
   intros Hp. unfold named_block. destruct (get_str (st x1) d str_NAME) as [nm|].
   2:{ intro H. injection H as <-. split; [apply struct_eq_refl|]. split; [reflexivity|]. split; [reflexivity|split; reflexivity]. }
-  cbn zeta. cbn [st]. unfold liftR at 1.
-  destruct (dict_set (st x1) d' str_NAME (VStr (nm ++ str_uniq ++ dec (uniq_ctr x1)))) as [s2 [e|]] eqn:E1; [discriminate|].
+  cbv zeta. destruct (fresh_ctr _ _ _ _ _ _) as [k|] eqn:Ef; [|discriminate].
+  cbn [st]. unfold liftR at 1.
+  destruct (dict_set (st x1) d' str_NAME (VStr (nm ++ str_uniq ++ dec k))) as [s2 [e|]] eqn:E1; [discriminate|].
   apply (dict_set_orphan (st x1) d' str_NAME _ s2 eq_refl Hp) in E1. cbn [st uniq_ctr flat_ctr].
   assert (H2 : struct_eq (st x1) s2) by (subst s2; eapply struct_eq_trans; [apply se_emit|apply se_data_write]).
   assert (N2 : nstab s2 = nstab (st x1)) by (subst s2; reflexivity).
   assert (D2 : forall y, y <> d' -> data s2 y = data (st x1) y) by (intros y Hy; subst s2; cbn; apply upd_other; exact Hy).
-  assert (G2 : get_str s2 d' str_NAME = Some (nm ++ str_uniq ++ dec (uniq_ctr x1))).
+  assert (G2 : get_str s2 d' str_NAME = Some (nm ++ str_uniq ++ dec k)).
   { subst s2. rewrite get_str_write, Nat.eqb_refl, str_eqb_refl. reflexivity. }
-  destruct (get_str s2 d' str_IDENT) as [idv|].
-  2:{ intro H. injection H as <-. cbn [st uniq_ctr]. split; [exact H2|]. split; [exact N2|]. split; [exact D2|split; [exact G2|reflexivity]]. }
+  assert (G3 : get_str s2 d' str_IDENT = get_str (st x1) d' str_IDENT).
+  { subst s2. rewrite get_str_write, ident_ne_name, andb_false_r. reflexivity. }
+  destruct (get_str s2 d' str_IDENT) as [idv|] eqn:E3.
+  2:{ intro H. injection H as <-. cbn [st uniq_ctr]. split; [exact H2|]. split; [exact N2|]. split; [exact D2|].
+      exists k. split; [reflexivity|]. split; [exact G2|]. split; [reflexivity|]. rewrite E3, <- G3. reflexivity. }
   unfold liftR. cbn [st uniq_ctr flat_ctr].
-  destruct (dict_set s2 d' str_IDENT (VStr (idv ++ str_uniq ++ dec (uniq_ctr x1)))) as [s3 [e|]] eqn:E2; [discriminate|].
+  destruct (dict_set s2 d' str_IDENT (VStr (idv ++ str_uniq ++ dec k))) as [s3 [e|]] eqn:E2; [discriminate|].
   assert (Hp2 : ns_parent s2 d' = None) by (unfold ns_parent in *; rewrite (se_kind _ _ H2), (se_par _ _ H2); exact Hp).
   apply (dict_set_orphan s2 d' str_IDENT _ s3 eq_refl Hp2) in E2.
   intro H. injection H as <-. cbn [st uniq_ctr].
   split; [subst s3; eapply struct_eq_trans; [exact H2|]; eapply struct_eq_trans; [apply se_emit|apply se_data_write]|].
   split; [subst s3; exact N2|].
   split; [intros y Hy; subst s3; cbn -[str_IDENT]; rewrite upd_other by exact Hy; apply D2; exact Hy|].
-  split; [|reflexivity]. subst s3. rewrite get_str_write, name_ne_ident, andb_false_r. exact G2.
+  exists k. split; [reflexivity|].
+  split; [subst s3; rewrite get_str_write, name_ne_ident, andb_false_r; exact G2|]. split; [reflexivity|].
+  rewrite <- G3. subst s3. rewrite get_str_write, Nat.eqb_refl, str_eqb_refl. reflexivity.
 Qed.
 
-(* ---- one completed round ---- *)
+(* ---- one round ---- *)
 Section RoundN.
+  Variables (n0 : id) (x : xstate) (inst d : id).
+  Let s := st x.
+  Hypotheses (U : UF s) (Ei : iref s inst = Some d) (Hinst : inst < next s)
+             (Hn0 : n0 <= next s) (HLT : LT n0 s) (HPL : PL n0 s).
+
+  (* the state in which add_definition is called: the copy next s has been made and renamed *)
+  Record AtAdd (lib : id) (x5 : xstate) : Prop := mkAtAdd {
+    aa_lt : LT n0 (st x5); aa_pl : PL n0 (st x5); aa_t : InvT (st x5);
+    aa_kids : kids (st x5) RDefs = kids s RDefs;
+    aa_keys : forall y, y < next s -> get_str (st x5) y str_NAME = get_str s y str_NAME /\ get_str (st x5) y str_IDENT = get_str s y str_IDENT;
+    aa_tab : forall y, y < next s -> nstab (st x5) y = nstab s y;
+    aa_sub : forall l, l < next s -> ~ In l (subtree (st x5) (next s));
+    aa_new : match get_str s d str_NAME with
+             | Some nm => exists k, uniq_ctr x <= k /\ uniq_ctr x5 = S k /\
+                 get_str (st x5) (next s) str_NAME = Some (nm ++ str_uniq ++ dec k) /\
+                 get_str (st x5) (next s) str_IDENT = option_map (fun i => i ++ str_uniq ++ dec k) (get_str s d str_IDENT) /\
+                 (forall c, In c (kids s RDefs lib) -> get_str s c str_NAME <> Some (nm ++ str_uniq ++ dec k)) /\
+                 (forall i c w, get_str s d str_IDENT = Some i -> In c (kids s RDefs lib) -> get_str s c str_IDENT = Some w ->
+                    lower w <> lower (i ++ str_uniq ++ dec k)) /\
+                 (forall j, uniq_ctr x <= j -> j < k ->
+                    suffix_taken s (kids s RDefs lib) nm (get_str s d str_IDENT) (str_uniq ++ dec j) = true)
+             | None => get_str (st x5) (next s) str_NAME = None /\ uniq_ctr x5 = uniq_ctr x
+             end
+  }.
+
+  Lemma round_at_add lib x5 :
+    par s RDefs d = Some lib -> snd (fst (clone_definition s d)) = None ->
+    named_block (mkX (fst (fst (clone_definition s d))) (uniq_ctr x) (flat_ctr x)) lib d (next s) = (x5, None) ->
+    AtAdd lib x5.
+  Proof.
+    intros Ep Hc Hnb. pose proof U as [I [T [F [FT0 K]]]]. pose proof (inv_a _ I) as I1.
+    pose proof (ref_lt _ _ _ K F Ei) as Hd.
+    assert (Hkd : kind_of s d = Some KDefinition).
+    { apply (i1_kids _ I1) in Ep. apply (T RDefs lib d Ep). }
+    pose proof (clone_definition_old_attrs s d U Hd Hkd Hc) as OA1.
+    pose proof (clone_definition_old_nstab s d U Hd Hkd Hc) as ON1.
+    pose proof (clone_definition_struct_m s d U Hd Hkd Hc) as S.
+    pose proof (clone_definition_data s d U Hd Hkd Hc) as DT.
+    pose proof (rd_clone_definition s d) as [RK RP].
+    assert (U1 : UF (fst (fst (clone_definition s d)))).
+    { apply uf_clone_definition; [exact U|unfold is_kind; rewrite Hkd; reflexivity|exact Hc]. }
+    pose proof (clone_definition_id s d) as Hid.
+    revert Hnb. destruct (clone_definition s d) as [[s1 e1] dd]. cbn [fst snd] in *. subst e1 dd. intro Hnb.
+    set (d' := next s) in *. set (x1 := mkX s1 (uniq_ctr x) (flat_ctr x)) in Hnb.
+    destruct U1 as [I1' [T1 [F1 [FT1 K1]]]]. pose proof (inv_a _ I1') as I11.
+    assert (Hkd1 : kind_of s1 d' = Some KDefinition).
+    { destruct (ds_rng _ _ _ _ _ S d d' (ds_root _ _ _ _ _ S)) as [_ [_ H]]. rewrite H. exact Hkd. }
+    assert (Hpar1 : ns_parent s1 d' = None) by (unfold ns_parent; rewrite Hkd1; apply (ds_detached _ _ _ _ _ S)).
+    assert (Hold : forall l c, In c (kids s RDefs l) -> c < next s) by (intros l c Hcin; apply (kids_lt s RDefs l c F I1 Hcin)).
+    assert (GS1 : forall y k0, y < next s -> get_str s1 y k0 = get_str s y k0).
+    { intros y k0 Hy. unfold get_str. rewrite (attrs_data _ _ _ (OA1 y Hy)). reflexivity. }
+    assert (KS1 : forall y, y < next s -> keys_same s s1 y).
+    { intros y Hy. apply keys_same_data. apply (attrs_data _ _ _ (OA1 y Hy)). }
+    assert (L1 : LT n0 s1).
+    { apply (lt_ext n0 s s1 HLT).
+      - intros l Hl. apply ON1. lia.
+      - intros l _. rewrite RK. reflexivity.
+      - intros l c _ Hcin. apply KS1. apply (Hold l c Hcin). }
+    assert (P1 : PL n0 s1) by (intros y l Hy; rewrite RP in Hy; apply (HPL y l Hy)).
+    assert (Hnd1 : forall l, ~ In d' (kids s1 RDefs l)).
+    { intros l Hin. rewrite RK in Hin. pose proof (Hold l d' Hin). unfold d' in *. lia. }
+    destruct (named_block_spec x1 lib d d' x5 Hpar1 Hnb) as [SE5 [N5 [D5 HN5]]]. unfold x1 in SE5, N5, D5, HN5. cbn [st uniq_ctr] in SE5, N5, D5, HN5.
+    rewrite (GS1 d str_NAME Hd), (GS1 d str_IDENT Hd), RK in HN5.
+    assert (Hname1 : forall k0, k0 <> str_NS -> get_str s1 d' k0 = get_str s d k0).
+    { intros k0 Hk0. apply (clone_get_str_same s d s1 _ DT d d' KDefinition (ds_root _ _ _ _ _ S) Hkd eq_refl). exact Hk0. }
+    assert (KS5 : forall y, y <> d' -> keys_same s1 (st x5) y) by (intros y Hy; apply keys_same_data, D5; exact Hy).
+    constructor; try change (next s) with d'.
+    - apply (lt_ext n0 s1 (st x5) L1).
+      + intros l _. rewrite N5. reflexivity.
+      + intros l _. rewrite (se_kids _ _ SE5). reflexivity.
+      + intros l c _ Hcin. apply KS5. intros ->. apply (Hnd1 l Hcin).
+    - intros y l Hy. rewrite (se_par _ _ SE5) in Hy. apply (P1 y l Hy).
+    - apply (tstep_invt _ _ (tstep_struct _ _ SE5) T1).
+    - rewrite (se_kids _ _ SE5). exact RK.
+    - intros y Hy. unfold get_str. rewrite (D5 y ltac:(unfold d'; lia)). split; [apply (GS1 y str_NAME Hy)|apply (GS1 y str_IDENT Hy)].
+    - intros y Hy. rewrite N5. apply ON1. exact Hy.
+    - intros l Hl. unfold subtree. rewrite (se_kind _ _ SE5), Hkd1. unfold def_subtree. rewrite !(se_kids _ _ SE5).
+      assert (Hnew : forall b, (exists a, img (clone_memo s d) a b) -> b <> l).
+      { intros b [a Hab] ->. destruct (ds_rng _ _ _ _ _ S a l Hab) as [_ [H _]]. lia. }
+      intros [<-|Hin]; [unfold d' in Hl; lia|].
+      apply in_app_or in Hin as [Hin|Hin]; [|apply in_app_or in Hin as [Hin|Hin]].
+      + destruct (Forall2_in_r _ _ _ l (ds_ports _ _ _ _ _ S) Hin) as [a [_ Ha]]. apply (Hnew l); [exists a; exact Ha|reflexivity].
+      + destruct (Forall2_in_r _ _ _ l (ds_cables _ _ _ _ _ S) Hin) as [a [_ Ha]]. apply (Hnew l); [exists a; exact Ha|reflexivity].
+      + destruct (Forall2_in_r _ _ _ l (ds_children _ _ _ _ _ S) Hin) as [a [_ Ha]]. apply (Hnew l); [exists a; exact Ha|reflexivity].
+    - destruct (get_str s d str_NAME) as [nm|] eqn:Enm.
+      + destruct HN5 as [k [Ef [G5 [C5 G6]]]].
+        rewrite (fresh_ctr_ext s s1 (kids s RDefs lib) nm (get_str s d str_IDENT)) in Ef.
+        2:{ intros c Hcin. pose proof (Hold lib c Hcin) as Hcl. split; apply GS1; exact Hcl. }
+        destruct (fresh_ctr_fresh _ _ _ _ _ _ _ Ef) as [A [B [C D]]].
+        exists k. split; [exact A|]. split; [exact C5|]. split; [exact G5|].
+        split; [rewrite G6, (Hname1 str_IDENT ltac:(discriminate)); reflexivity|].
+        split; [exact B|]. split; [intros i c w Hi; apply (C i c w Hi)|exact D].
+      + destruct HN5 as [G5 C5]. rewrite G5. split; [rewrite (Hname1 str_NAME ltac:(discriminate)); exact Enm|exact C5].
+  Qed.
+
+  (* add_definition never refuses the renamed copy for its name or its identifier: whatever the library
+     holds, in whatever process the netlist was built, the test of NamespaceManager.add passes. (A cell
+     without a name is not renamed at all, so this is about named cells.) *)
+  Theorem round_add_check lib x5 :
+    par s RDefs d = Some lib -> snd (fst (clone_definition s d)) = None ->
+    named_block (mkX (fst (fst (clone_definition s d))) (uniq_ctr x) (flat_ctr x)) lib d (next s) = (x5, None) ->
+    get_str s d str_NAME <> None ->
+    ns_add_conflict (st x5) lib (next s) KDefinition = false.
+  Proof.
+    intros Ep Hc Hnb Hnamed. destruct (round_at_add lib x5 Ep Hc Hnb) as [L5 _ _ K5 G5 _ _ HN].
+    pose proof U as [I [T [F [FT0 K]]]]. pose proof (inv_a _ I) as I1.
+    assert (Hold : forall c, In c (kids s RDefs lib) -> c < next s) by (intros c Hcin; apply (kids_lt s RDefs lib c F I1 Hcin)).
+    assert (Hliblt : lib < n0) by (apply (HPL d lib Ep)).
+    unfold ns_add_conflict. destruct (nstab (st x5) lib) as [t|] eqn:Et; [|reflexivity].
+    destruct (L5 lib t Hliblt Et) as [Sn Si]. rewrite K5 in Sn, Si.
+    destruct (get_str s d str_NAME) as [nm|]; [|contradiction]. destruct HN as [k [_ [_ [Gn [Gi [Fn [Fi _]]]]]]].
+    rewrite Gn, Gi. apply orb_false_iff. split.
+    - destruct (get_str s d str_IDENT) as [i|]; cbn [option_map]; [|reflexivity].
+      apply negb_false_iff. unfold ns_no_conflict. rewrite ident_ne_name. destruct (ns_pol t) eqn:Hp; [reflexivity|].
+      rewrite str_eqb_refl. apply negb_true_iff. unfold tab_conflict.
+      destruct (sassoc (lower (i ++ str_uniq ++ dec k)) (ns_idents t KDefinition)) as [c|] eqn:Ex; [|reflexivity]. exfalso.
+      apply (Si eq_refl) in Ex as [Hin Hk]. unfold ident_key in Hk. rewrite (proj2 (G5 c (Hold c Hin))) in Hk.
+      destruct (get_str s c str_IDENT) as [w|] eqn:Ew; [|discriminate]. cbn [option_map] in Hk. injection Hk as Hk.
+      apply (Fi i c w eq_refl Hin Ew Hk).
+    - apply negb_false_iff. unfold ns_no_conflict. rewrite str_eqb_refl. apply negb_true_iff. unfold tab_conflict.
+      destruct (sassoc (nm ++ str_uniq ++ dec k) (ns_names t KDefinition)) as [c|] eqn:Ex; [|reflexivity]. exfalso.
+      apply Sn in Ex as [Hin Hk]. unfold name_key in Hk. rewrite (proj1 (G5 c (Hold c Hin))) in Hk. apply (Fn c Hin Hk).
+  Qed.
+End RoundN.
+
+(* ---- one completed round ---- *)
+Section RoundC.
   Variables (n0 : id) (x : xstate) (inst d : id).
   Let s := st x.
   Hypotheses (U : UF s) (Ei : iref s inst = Some d) (Hinst : inst < next s)
@@ -303,67 +524,35 @@ Section RoundN.
     exists lib, par s RDefs d = Some lib /\ par (st x') RDefs (next s) = Some lib /\
       (forall c, In c (kids (st x') RDefs lib) <-> c = next s \/ In c (kids s RDefs lib)) /\
       (forall l, l <> lib -> kids (st x') RDefs l = kids s RDefs l) /\
-      (forall l c, In c (kids s RDefs l) -> get_str (st x') c str_NAME = get_str s c str_NAME) /\
+      (forall l c, In c (kids s RDefs l) -> get_str (st x') c str_NAME = get_str s c str_NAME /\ ident_key (st x') c = ident_key s c) /\
       match get_str s d str_NAME with
-      | Some nm => get_str (st x') (next s) str_NAME = Some (nm ++ str_uniq ++ dec (uniq_ctr x)) /\
-                   uniq_ctr x' = S (uniq_ctr x) /\
-                   (nstab s lib <> None -> forall c, In c (kids s RDefs lib) ->
-                      get_str s c str_NAME <> Some (nm ++ str_uniq ++ dec (uniq_ctr x)))
+      | Some nm => exists k, uniq_ctr x <= k /\ uniq_ctr x' = S k /\
+                   get_str (st x') (next s) str_NAME = Some (nm ++ str_uniq ++ dec k) /\
+                   ident_key (st x') (next s) = option_map (fun i => lower (i ++ str_uniq ++ dec k)) (get_str s d str_IDENT) /\
+                   (forall c, In c (kids s RDefs lib) -> get_str s c str_NAME <> Some (nm ++ str_uniq ++ dec k)) /\
+                   (forall i c w, get_str s d str_IDENT = Some i -> In c (kids s RDefs lib) -> get_str s c str_IDENT = Some w ->
+                      lower w <> lower (i ++ str_uniq ++ dec k)) /\
+                   (forall j, uniq_ctr x <= j -> j < k ->
+                      suffix_taken s (kids s RDefs lib) nm (get_str s d str_IDENT) (str_uniq ++ dec j) = true)
       | None => get_str (st x') (next s) str_NAME = None /\ uniq_ctr x' = uniq_ctr x
       end.
   Proof.
     intro E. pose proof U as [I [T [F [FT0 K]]]]. pose proof (inv_a _ I) as I1.
-    pose proof (ref_lt _ _ _ K F Ei) as Hd.
-    unfold make_instance_unique in E. fold s in E. rewrite Ei in E.
+    rewrite make_instance_unique_unfold in E. fold s in E. rewrite Ei in E.
     destruct (par s RDefs d) as [lib|] eqn:Ep; [|discriminate].
-    assert (Hkd : kind_of s d = Some KDefinition).
-    { apply (i1_kids _ I1) in Ep. apply (T RDefs lib d Ep). }
     assert (Hc : snd (fst (clone_definition s d)) = None).
     { revert E. destruct (clone_definition s d) as [[s1 [ex|]] dd]; cbn [liftR fst snd]; [discriminate|reflexivity]. }
-    pose proof (clone_definition_old_attrs s d U Hd Hkd Hc) as OA1.
-    pose proof (clone_definition_old_nstab s d U Hd Hkd Hc) as ON1.
-    pose proof (clone_definition_struct_m s d U Hd Hkd Hc) as S.
-    pose proof (clone_definition_data s d U Hd Hkd Hc) as DT.
-    pose proof (rd_clone_definition s d) as [RK RP].
-    assert (U1 : UF (fst (fst (clone_definition s d)))).
-    { apply uf_clone_definition; [exact U|unfold is_kind; rewrite Hkd; reflexivity|exact Hc]. }
+    pose proof (fun x5 => round_at_add n0 x inst d U Ei Hinst Hn0 HLT HPL lib x5 Ep Hc) as RA. fold s in RA.
     pose proof (clone_definition_id s d) as Hid.
-    revert E. destruct (clone_definition s d) as [[s1 e1] dd]. cbn [fst snd] in *. subst e1 dd. cbn [liftR]. intro E.
-    set (d' := next s) in *. set (x1 := mkX s1 (uniq_ctr x) (flat_ctr x)) in E.
-    destruct U1 as [I1' [T1 [F1 [FT1 K1]]]]. pose proof (inv_a _ I1') as I11.
-    assert (Hkd1 : kind_of s1 d' = Some KDefinition).
-    { destruct (ds_rng _ _ _ _ _ S d d' (ds_root _ _ _ _ _ S)) as [_ [_ H]]. rewrite H. exact Hkd. }
-    assert (Hpar1 : ns_parent s1 d' = None) by (unfold ns_parent; rewrite Hkd1; apply (ds_detached _ _ _ _ _ S)).
+    revert E RA. destruct (clone_definition s d) as [[s1 e1] dd]. cbn [fst snd] in *. subst e1 dd. cbn [liftR]. intros E RA.
+    set (d' := next s) in *.
+    destruct (named_block (mkX s1 (uniq_ctr x) (flat_ctr x)) lib d d') as [x5 [e|]] eqn:Hnb; [discriminate|].
+    destruct (RA x5 eq_refl) as [L5 P5 T5 K5 G5 N5 Hsub5 HN5]. clear RA. fold s in K5, G5, N5, Hsub5, HN5. fold d' in Hsub5, HN5.
     assert (Hold : forall l c, In c (kids s RDefs l) -> c < next s) by (intros l c Hcin; apply (kids_lt s RDefs l c F I1 Hcin)).
-    assert (NK1 : forall y, y < next s -> name_key s1 y = name_key s y).
-    { intros y Hy. unfold name_key, get_str. rewrite (attrs_data _ _ _ (OA1 y Hy)). reflexivity. }
-    assert (L1 : LT n0 s1).
-    { apply (lt_ext n0 s s1 HLT).
-      - intros l Hl. apply ON1. lia.
-      - intros l _. rewrite RK. reflexivity.
-      - intros l c _ Hcin. apply NK1. apply (Hold l c Hcin). }
-    assert (P1 : PL n0 s1) by (intros y l Hy; rewrite RP in Hy; apply (HPL y l Hy)).
-    assert (Hnd1 : forall l, ~ In d' (kids s1 RDefs l)).
-    { intros l Hin. rewrite RK in Hin. pose proof (Hold l d' Hin). unfold d' in *. lia. }
-    (* the renaming *)
-    set (named := match get_str (st x1) d str_NAME with Some nm => _ | None => _ end) in E.
-    assert (Hnb : named = named_block x1 d d') by reflexivity.
-    destruct named as [x5 [e|]]; [discriminate|]. symmetry in Hnb.
-    destruct (named_block_spec x1 d d' x5 Hpar1 Hnb) as [SE5 [N5 [D5 HN5]]]. unfold x1 in SE5, N5, D5, HN5. cbn [st uniq_ctr] in SE5, N5, D5, HN5.
-    assert (HnameS : get_str s1 d str_NAME = get_str s d str_NAME).
-    { unfold get_str. rewrite (attrs_data _ _ _ (OA1 d Hd)). reflexivity. }
-    rewrite HnameS in HN5.
-    assert (Hname1 : get_str s1 d' str_NAME = get_str s d str_NAME).
-    { apply (clone_get_str_same s d s1 _ DT d d' KDefinition (ds_root _ _ _ _ _ S) Hkd eq_refl). discriminate. }
-    assert (NK5 : forall y, y <> d' -> name_key (st x5) y = name_key s1 y).
-    { intros y Hy. unfold name_key, get_str. rewrite (D5 y Hy). reflexivity. }
-    assert (L5 : LT n0 (st x5)).
-    { apply (lt_ext n0 s1 (st x5) L1).
-      - intros l _. rewrite N5. reflexivity.
-      - intros l _. rewrite (se_kids _ _ SE5). reflexivity.
-      - intros l c _ Hcin. apply NK5. intros ->. apply (Hnd1 l Hcin). }
-    assert (P5 : PL n0 (st x5)) by (intros y l Hy; rewrite (se_par _ _ SE5) in Hy; apply (P1 y l Hy)).
-    assert (T5 : InvT (st x5)) by (apply (tstep_invt _ _ (tstep_struct _ _ SE5) T1)).
+    assert (Hnin5 : ~ In d' (kids (st x5) RDefs lib)).
+    { rewrite K5. intro Hin. pose proof (Hold lib d' Hin). unfold d' in *. lia. }
+    assert (KS5 : forall y, y < next s -> keys_same s (st x5) y).
+    { intros y Hy. destruct (G5 y Hy) as [A B]. split; [exact A|unfold ident_key; rewrite B; reflexivity]. }
     (* add_definition *)
     set (pos := Some (Datatypes.S (index_of d (kids s RDefs lib)))) in E.
     pose proof (add_def_spec (st x5) lib d' pos) as AD.
@@ -377,72 +566,52 @@ Section RoundN.
     injection E as <-. cbn [st uniq_ctr]. destruct Q4 as [Q4k Q4d Q4t]. destruct FW as [_ [FWp _]].
     assert (Hliblt : lib < n0) by (apply (HPL d lib Ep)).
     assert (Hlibold : lib < next s) by lia.
-    assert (K5 : kids (st x5) RDefs = kids s RDefs) by (rewrite (se_kids _ _ SE5); exact RK).
-    assert (Hsub5 : forall l, l < next s -> ~ In l (subtree (st x5) d')).
-    { intros l Hl. unfold subtree. rewrite (se_kind _ _ SE5), Hkd1. unfold def_subtree. rewrite !(se_kids _ _ SE5).
-      assert (Hnew : forall b, (exists a, img (clone_memo s d) a b) -> b <> l).
-      { intros b [a Hab] ->. destruct (ds_rng _ _ _ _ _ S a l Hab) as [_ [H _]]. lia. }
-      intros [<-|Hin]; [unfold d' in Hl; lia|].
-      apply in_app_or in Hin as [Hin|Hin]; [|apply in_app_or in Hin as [Hin|Hin]].
-      - destruct (Forall2_in_r _ _ _ l (ds_ports _ _ _ _ _ S) Hin) as [a [_ Ha]]. apply (Hnew l); [exists a; exact Ha|reflexivity].
-      - destruct (Forall2_in_r _ _ _ l (ds_cables _ _ _ _ _ S) Hin) as [a [_ Ha]]. apply (Hnew l); [exists a; exact Ha|reflexivity].
-      - destruct (Forall2_in_r _ _ _ l (ds_children _ _ _ _ _ S) Hin) as [a [_ Ha]]. apply (Hnew l); [exists a; exact Ha|reflexivity]. }
-    assert (Hnin5 : ~ In d' (kids (st x5) RDefs lib)) by (rewrite (se_kids _ _ SE5); apply Hnd1).
     (* the library tables after the addition *)
     assert (L3 : LT n0 s3).
     { intros l t' Hl Ht'. destruct (Nat.eq_dec l lib) as [->|Hne].
-      - destruct (nstab (st x5) lib) as [t|] eqn:Et; [|rewrite AL in Ht'; discriminate].
-        destruct AL as [t2 [Et2 Hnm]]. rewrite Et2 in Ht'. injection Ht' as <-.
-        pose proof (L5 lib t Hliblt Et) as S5.
+      - unfold add_tab_spec in AL. destruct (nstab (st x5) lib) as [t|] eqn:Et; [|rewrite AL in Ht'; discriminate].
+        destruct AL as [t2 [Et2 [Hpol [Hnm Hidn]]]]. rewrite Et2 in Ht'. injection Ht' as <-.
+        destruct (L5 lib t Hliblt Et) as [S5n S5i].
         assert (Hmem : forall c, In c (kids s3 RDefs lib) <-> In c (kids (st x5) RDefs lib) \/ c = d').
         { intro c. rewrite AK, py_insert_In. tauto. }
-        destruct (name_key (st x5) d') as [v|] eqn:Ev.
-        + destruct Hnm as [Hcf Hnames]. rewrite Hnames.
-          pose proof (tab_conflict_free _ _ _ d' v S5 Hnin5 Hcf) as Hfree.
-          apply (slot_ext _ _ _ _ _ (slot_insert _ _ _ d' v S5 Hnin5 Ev Hfree)); [exact Hmem|intros c _; apply AN].
-        + rewrite Hnm. apply (slot_ext _ _ _ _ _ (slot_insert_keyless _ _ _ d' S5 Ev)); [exact Hmem|intros c _; apply AN].
-      - rewrite (AT l Hne (Hsub5 l ltac:(lia))) in Ht'. pose proof (L5 l t' Hl Ht') as S5.
-        apply (slot_ext _ _ _ _ _ S5); [intro c; rewrite (AKo l Hne); tauto|intros c _; apply AN]. }
+        split.
+        + destruct (name_key (st x5) d') as [v|] eqn:Ev.
+          * destruct Hnm as [Hcf Hnames]. rewrite Hnames.
+            pose proof (tab_conflict_free _ _ _ d' v S5n Hnin5 Hcf) as Hfree.
+            apply (slot_ext _ _ _ _ _ (slot_insert _ _ _ d' v S5n Hnin5 Ev Hfree)); [exact Hmem|intros c _; apply (proj1 (AN c))].
+          * rewrite Hnm. apply (slot_ext _ _ _ _ _ (slot_insert_keyless _ _ _ d' S5n Ev)); [exact Hmem|intros c _; apply (proj1 (AN c))].
+        + intro Hp2. rewrite Hpol in Hp2. specialize (S5i Hp2). specialize (Hidn Hp2).
+          destruct (get_str (st x5) d' str_IDENT) as [v|] eqn:Ev.
+          * destruct Hidn as [Hcf Hids]. rewrite Hids.
+            assert (Ek : ident_key (st x5) d' = Some (lower v)) by (unfold ident_key; rewrite Ev; reflexivity).
+            pose proof (tab_conflict_free _ _ _ d' (lower v) S5i Hnin5 Hcf) as Hfree.
+            apply (slot_ext _ _ _ _ _ (slot_insert _ _ _ d' (lower v) S5i Hnin5 Ek Hfree)); [exact Hmem|intros c _; apply (proj2 (AN c))].
+          * rewrite Hidn. assert (Ek : ident_key (st x5) d' = None) by (unfold ident_key; rewrite Ev; reflexivity).
+            apply (slot_ext _ _ _ _ _ (slot_insert_keyless _ _ _ d' S5i Ek)); [exact Hmem|intros c _; apply (proj2 (AN c))].
+      - rewrite (AT l Hne (Hsub5 l ltac:(lia))) in Ht'. destruct (L5 l t' Hl Ht') as [S5n S5i]. split.
+        + apply (slot_ext _ _ _ _ _ S5n); [intro c; rewrite (AKo l Hne); tauto|intros c _; apply (proj1 (AN c))].
+        + intro Hp2. apply (slot_ext _ _ _ _ _ (S5i Hp2)); [intro c; rewrite (AKo l Hne); tauto|intros c _; apply (proj2 (AN c))]. }
     assert (P3 : PL n0 s3).
     { intros y l Hy. destruct (Nat.eq_dec y d') as [->|Hne]; [rewrite AP in Hy; injection Hy as <-; exact Hliblt|].
       rewrite (APo y Hne) in Hy. apply (P5 y l Hy). }
-    assert (NK4 : forall y, name_key s4 y = name_key s3 y) by (intro y; unfold name_key, get_str; rewrite Q4d; reflexivity).
-    split; [apply (lt_ext n0 s3 s4 L3); [intros l _; rewrite Q4t; reflexivity|intros l _; rewrite Q4k; reflexivity|intros l c _ _; apply NK4]|].
+    assert (KS4 : forall y, keys_same s3 s4 y) by (intro y; apply keys_same_data; rewrite Q4d; reflexivity).
+    split; [apply (lt_ext n0 s3 s4 L3); [intros l _; rewrite Q4t; reflexivity|intros l _; rewrite Q4k; reflexivity|intros l c _ _; apply KS4]|].
     split; [intros y l Hy; rewrite FWp in Hy; apply (P3 y l Hy)|].
     exists lib. split; [reflexivity|]. split; [rewrite FWp; exact AP|].
     split; [intro c; rewrite Q4k, AK, py_insert_In, K5; tauto|].
     split; [intros l Hne; rewrite Q4k, (AKo l Hne), K5; reflexivity|].
+    assert (KSall : forall y, name_key s4 y = name_key (st x5) y /\ ident_key s4 y = ident_key (st x5) y).
+    { intro y. destruct (KS4 y) as [A B]. destruct (AN y) as [C D]. split; congruence. }
     split.
-    { intros l c Hcin. pose proof (Hold l c Hcin) as Hcl. change (name_key s4 c = name_key s c).
-      rewrite NK4, AN, (NK5 c ltac:(unfold d'; lia)). apply NK1. exact Hcl. }
-    assert (Hname4 : get_str s4 d' str_NAME = get_str (st x5) d' str_NAME).
-    { change (name_key s4 d' = name_key (st x5) d'). rewrite NK4. apply AN. }
-    rewrite Hname4. destruct (get_str s d str_NAME) as [nm|] eqn:Enm.
-    - destruct HN5 as [G5 C5]. split; [exact G5|]. split; [exact C5|].
-      intros Htab c Hcin Hcn. destruct (nstab s lib) as [t|] eqn:Et; [|apply Htab; reflexivity].
-      assert (Et5 : nstab (st x5) lib = Some t) by (rewrite N5, (ON1 lib Hlibold); exact Et).
-      rewrite Et5 in AL. destruct AL as [t2 [_ Hnm]]. unfold name_key in Hnm. rewrite G5 in Hnm. destruct Hnm as [Hcf _].
-      pose proof (L5 lib t Hliblt Et5) as S5.
-      pose proof (tab_conflict_free _ _ _ d' _ S5 Hnin5 Hcf) as Hfree.
-      assert (Hc5 : sassoc (nm ++ str_uniq ++ dec (uniq_ctr x)) (ns_names t KDefinition) = Some c).
-      { apply S5. split; [rewrite K5; exact Hcin|]. rewrite (NK5 c ltac:(pose proof (Hold lib c Hcin); unfold d'; lia)), (NK1 c (Hold lib c Hcin)). exact Hcn. }
-      rewrite Hfree in Hc5. discriminate.
-    - destruct HN5 as [G5 C5]. rewrite G5. split; [rewrite Hname1; reflexivity|exact C5].
+    { intros l c Hcin. pose proof (Hold l c Hcin) as Hcl. destruct (KSall c) as [A B]. destruct (KS5 c Hcl) as [C D].
+      split; [change (name_key s4 c = name_key s c)|]; congruence. }
+    destruct (KSall d') as [Hname4 Hident4]. unfold name_key in Hname4. rewrite Hname4, Hident4.
+    destruct (get_str s d str_NAME) as [nm|] eqn:Enm.
+    - destruct HN5 as [k [A [C5 [G5n [G5i [Fn [Fi Fm]]]]]]]. exists k. split; [exact A|]. split; [exact C5|]. split; [exact G5n|].
+      split; [unfold ident_key; rewrite G5i; destruct (get_str s d str_IDENT); reflexivity|]. split; [exact Fn|split; [exact Fi|exact Fm]].
+    - exact HN5.
   Qed.
-End RoundN.
-
-(* a clash: if the library has a name table and already holds a definition with the name the copy would
-   get, the round does not complete (add_definition raises ValueError after the clone was made) *)
-Theorem round_clash n0 x inst d lib nm c :
-  UF (st x) -> iref (st x) inst = Some d -> inst < next (st x) -> n0 <= next (st x) -> LT n0 (st x) -> PL n0 (st x) ->
-  par (st x) RDefs d = Some lib -> get_str (st x) d str_NAME = Some nm -> nstab (st x) lib <> None ->
-  In c (kids (st x) RDefs lib) -> get_str (st x) c str_NAME = Some (nm ++ str_uniq ++ dec (uniq_ctr x)) ->
-  snd (make_instance_unique x inst) <> None.
-Proof.
-  intros U Ei Hi Hn HL HP Ep Enm Ht Hc Hcn. destruct (make_instance_unique x inst) as [x' [e|]] eqn:E; [discriminate|]. exfalso.
-  destruct (round_names n0 x inst d U Ei Hi Hn HL HP x' E) as [_ [_ [lib' [Ep' [_ [_ [_ [_ H]]]]]]]].
-  rewrite Ep in Ep'. injection Ep' as <-. rewrite Enm in H. destruct H as [_ [_ H]]. apply (H Ht c Hc Hcn).
-Qed.
+End RoundC.
 
 (* ---- the whole walk ---- *)
 Definition UName (lo hi : nat) (v : str) : Prop := exists nm k, v = nm ++ str_uniq ++ dec k /\ lo <= k /\ k < hi.
@@ -477,16 +646,16 @@ Proof.
       destruct (iref (st x1) j) as [d1|] eqn:Hr1; [|discriminate].
       pose proof U1 as [I' [T' [F' [FT' K']]]]. pose proof (inv_a _ I') as I1'.
       assert (Hctr : uniq_ctr x <= uniq_ctr x1).
-      { destruct (get_str (st x) d str_NAME); [destruct Hnew as [_ [-> _]]; lia|destruct Hnew as [_ ->]; lia]. }
+      { destruct (get_str (st x) d str_NAME); [destruct Hnew as [k [A [-> _]]]; lia|destruct Hnew as [_ ->]; lia]. }
       assert (HA1 : AddedOK b lo (uniq_ctr x1) (st x1)).
       { intros l c v Hcin Hbc Hv.
         assert (Hcase : In c (kids (st x) RDefs l) \/ (l = lib /\ c = next (st x))).
         { destruct (Nat.eq_dec l lib) as [->|Hne]; [apply Hmem in Hcin as [->|H]; [right; split; reflexivity|left; exact H]|].
           rewrite (Hoth l Hne) in Hcin. left. exact Hcin. }
         destruct Hcase as [Hold|[-> ->]].
-        - rewrite (Hnames l c Hold) in Hv. destruct (HA l c v Hold Hbc Hv) as [nm [k [-> [A B]]]]. exists nm, k. split; [reflexivity|lia].
+        - rewrite (proj1 (Hnames l c Hold)) in Hv. destruct (HA l c v Hold Hbc Hv) as [nm [k [-> [A B]]]]. exists nm, k. split; [reflexivity|lia].
         - destruct (get_str (st x) d str_NAME) as [nm|]; [|destruct Hnew as [Hnone _]; rewrite Hnone in Hv; discriminate].
-          destruct Hnew as [Hsome [Hc1 _]]. rewrite Hsome in Hv. injection Hv as <-. exists nm, (uniq_ctr x). split; [reflexivity|lia]. }
+          destruct Hnew as [k [A [Hc1 [Hsome _]]]]. rewrite Hsome in Hv. injection Hv as <-. exists nm, k. split; [reflexivity|lia]. }
       destruct (IH x1 (rest ++ kids (st x1) RChildren d1) x') as [L2 [P2 [C2 A2]]]; try assumption; try lia.
       * intros i Hi. apply in_app_or in Hi as [Hi|Hi]; [pose proof (HQ i (or_intror Hi)); lia|apply (kids_lt _ _ _ _ F' I1' Hi)].
       * split; [exact L2|split; [exact P2|split; [lia|exact A2]]].
@@ -521,3 +690,94 @@ Proof.
   intros U HL E Hl Ht H1 H2 E1 E2. destruct (uniquify_names fuel x n x' U HL E) as [L _].
   apply (lt_unique _ _ l t c1 c2 v L Hl Ht H1 H2 E1 E2).
 Qed.
+
+(* ---- every round of a run, completed or not ---- *)
+(* the states in which the walk enters _make_instance_unique, with the instance it is called on *)
+Fixpoint uniq_rounds (fuel : nat) (x : xstate) (queue : list id) : list (xstate * id) :=
+  match queue with
+  | [] => []
+  | inst :: rest =>
+      match fuel with
+      | O => []
+      | S f =>
+          match inst_unique (st x) inst with
+          | None => []
+          | Some u =>
+              (if u then [] else [(x, inst)]) ++
+              match (if u then (x, None) else make_instance_unique x inst) with
+              | (x1, Some e) => []
+              | (x1, None) =>
+                  match iref (st x1) inst with
+                  | Some d => uniq_rounds f x1 (rest ++ kids (st x1) RChildren d)
+                  | None => []
+                  end
+              end
+          end
+      end
+  end.
+
+Lemma rounds_inv n0 : forall fuel x Q,
+  UF (st x) -> n0 <= next (st x) -> LT n0 (st x) -> PL n0 (st x) -> (forall i, In i Q -> i < next (st x)) ->
+  forall xr i, In (xr, i) (uniq_rounds fuel x Q) ->
+  UF (st xr) /\ n0 <= next (st xr) /\ LT n0 (st xr) /\ PL n0 (st xr) /\ i < next (st xr).
+Proof.
+  induction fuel as [|fu IH]; intros x Q U Hn HL HP HQ xr i Hin; destruct Q as [|j rest]; cbn [uniq_rounds] in Hin; try contradiction.
+  destruct (inst_unique (st x) j) as [u|] eqn:Hu; [|contradiction].
+  pose proof U as [I [T [F [FT0 K]]]]. pose proof (inv_a _ I) as I1.
+  pose proof (HQ j (or_introl eq_refl)) as Hj.
+  destruct u.
+  - cbn [app] in Hin. destruct (iref (st x) j) as [d|] eqn:Hr; [|contradiction].
+    apply (IH x (rest ++ kids (st x) RChildren d) U Hn HL HP); [|exact Hin].
+    intros i0 Hi. apply in_app_or in Hi as [Hi|Hi]; [apply HQ; right; exact Hi|apply (kids_lt _ _ _ _ F I1 Hi)].
+  - cbn [app] in Hin. destruct Hin as [Heq|Hin].
+    { injection Heq as <- <-. split; [exact U|split; [exact Hn|split; [exact HL|split; [exact HP|exact Hj]]]]. }
+    destruct (iref (st x) j) as [d|] eqn:Hr.
+    2:{ unfold make_instance_unique in Hin. rewrite Hr in Hin. contradiction. }
+    pose proof (round_spec (st x) j d x eq_refl U Hr Hj) as HR.
+    pose proof (round_names n0 x j d U Hr Hj Hn HL HP) as HN.
+    destruct (make_instance_unique x j) as [x1 [e|]] eqn:Em; [contradiction|].
+    assert (Q1 : QB (st x) j d (st x1)) by (apply HR; reflexivity).
+    destruct (HN x1 eq_refl) as [L1 [P1 _]].
+    pose proof (qb_uf _ _ _ _ Q1) as U1. pose proof (qb_next _ _ _ _ Q1) as Hn1.
+    destruct (iref (st x1) j) as [d1|] eqn:Hr1; [|contradiction].
+    pose proof U1 as [I' [T' [F' [FT' K']]]]. pose proof (inv_a _ I') as I1'.
+    apply (IH x1 (rest ++ kids (st x1) RChildren d1) U1 ltac:(lia) L1 P1); [|exact Hin].
+    intros i0 Hi. apply in_app_or in Hi as [Hi|Hi]; [pose proof (HQ i0 (or_intror Hi)); lia|apply (kids_lt _ _ _ _ F' I1' Hi)].
+Qed.
+
+(* in every round of a run of uniquify that starts in a state with the invariants - whether or not the
+   run completes - the renamed copy of a named cell passes the naming test of add_definition *)
+Theorem uniquify_add_never_refused_by_name fuel x n t dtop xr i d lib x5 :
+  UF (st x) -> LT (next (st x)) (st x) -> top (st x) n = Some t -> iref (st x) t = Some dtop ->
+  In (xr, i) (uniq_rounds fuel x (kids (st x) RChildren dtop)) ->
+  iref (st xr) i = Some d -> par (st xr) RDefs d = Some lib -> get_str (st xr) d str_NAME <> None ->
+  snd (fst (clone_definition (st xr) d)) = None ->
+  named_block (mkX (fst (fst (clone_definition (st xr) d))) (uniq_ctr xr) (flat_ctr xr)) lib d (next (st xr)) = (x5, None) ->
+  ns_add_conflict (st x5) lib (next (st xr)) KDefinition = false.
+Proof.
+  intros U HL Ht Hr Hin Hri Hp Hnm Hc Hnb.
+  pose proof U as [I [T [F [FT0 K]]]]. pose proof (inv_a _ I) as I1.
+  assert (HP : PL (next (st x)) (st x)).
+  { intros y l Hy. destruct (Nat.lt_ge_cases l (next (st x))) as [H|H]; [exact H|].
+    apply (i1_kids _ I1) in Hy. rewrite (f_kids _ F RDefs l H) in Hy. destruct Hy. }
+  destruct (rounds_inv (next (st x)) fuel x (kids (st x) RChildren dtop) U (Nat.le_refl _) HL HP) with (xr := xr) (i := i)
+    as [Ur [Hnr [Lr [Pr Hir]]]]; [intros i0 Hi; apply (kids_lt _ _ _ _ F I1 Hi)|exact Hin|].
+  apply (round_add_check (next (st x)) xr i d Ur Hri Hir Hnr Lr Pr lib x5 Hp Hc Hnb Hnm).
+Qed.
+
+(* the out-of-fuel outcome of the search is not an outcome of the round *)
+Theorem round_never_out_of_fuel x inst : snd (make_instance_unique x inst) <> Some XOutOfFuel.
+Proof.
+  rewrite make_instance_unique_unfold. destruct (iref (st x) inst) as [d|]; [|cbn [snd]; intro H; discriminate H].
+  destruct (par (st x) RDefs d) as [lib|]; [|cbn [snd]; intro H; discriminate H].
+  destruct (clone_definition (st x) d) as [[s1 [e|]] d']; cbn [liftR]; [cbn [snd]; intro H; discriminate H|].
+  pose proof (named_block_fuel (mkX s1 (uniq_ctr x) (flat_ctr x)) lib d d') as HF.
+  destruct (named_block (mkX s1 (uniq_ctr x) (flat_ctr x)) lib d d') as [x5 [e|]]; [exact HF|].
+  unfold liftR at 1. destruct (op_add _ _ _ _ _) as [s3 [e|]]; [cbn [snd]; intro H; discriminate H|].
+  unfold liftR. destruct (op_set_reference _ _ _) as [s4 [e|]]; cbn [snd]; intro H; discriminate H.
+Qed.
+
+(* the walk enters _make_instance_unique on the first instance of the queue when it is not unique *)
+Lemma uniq_rounds_head fuel x inst rest :
+  inst_unique (st x) inst = Some false -> In (x, inst) (uniq_rounds (S fuel) x (inst :: rest)).
+Proof. intro H. cbn [uniq_rounds]. rewrite H. left. reflexivity. Qed.
